@@ -6,6 +6,12 @@ import json, os, subprocess, sys
 VERIF = os.path.dirname(os.path.dirname(os.path.abspath(__file__)))
 
 CLAIMED = {
+    "C11": dict(
+        text="Coq theorems on the keep rule of remove_obsolete_files: no file needed by the current version, another live version, an output being written or recovery is ever selected for deletion; at a quiescent moment every surviving file is needed, except manifests numbered above the current one (recorded known finding orphan-newer-manifest, with a refutation witness). Tied to the code by judging every observed directory listing (after quiescence in histories, after recovery of every crash image and after the following clean reopen) with the extracted keep rule and exactness predicate.",
+        note="The discipline that keeps a version linked exactly while it has holders (release_version) is modelled (Gc.v vset) but its balance theorem is not yet proved; the leak D8 was found and repaired through the directory check. Reader-versus-deletion interleavings are exercised by pause-point schedules only.",
+        design="6 / C11",
+        technique="machine-checked proof in Coq (decision function properties) + checked model-code correspondence on directory listings",
+    ),
     "C01": dict(
         text="Coq theorems on the LSM model: the lookup path (memtable, immutable memtable, level-0 files newest first, one file per deeper level found by binary search) returns exactly the newest entry at or below the sequence bound among ALL entries, for every well-formed state (db_get_correct); a write batch updates the result like a sorted map (C01_write_then_get); every admissible run of writes, rotations, flushes, compactions, trivial moves keeps the state well formed (reachable_wf, shared with C10). Tied to the code by whole-database histories compared with the extracted map specification, by judging every structural dump of the real database with the extracted invariant lsm_wf_b and lookup path, and by function-level differential execution of the lookup-candidate functions.",
         note="Trusted: Coq kernel, extraction, glue, the DB::verif_dump hook. The correspondence between individual implementation steps and model steps is checked on states (dumps), not yet step by step (trace refinement is future work). Table files answer lookups as proved in C13.",
